@@ -290,6 +290,8 @@ def generic_elem(v: Val) -> Expr:
         return v.e
     if isinstance(v, NoneV):
         return sym.Opq("none", ())
+    if type(v).__name__ == "PSet":
+        return sym.Opq("index", (v.pred,), None)
     return sym.Opq("unmodelled:elem-of-" + type(v).__name__, (), fresh("u"))
 
 
@@ -331,3 +333,16 @@ def bucket_family_like(family, order) -> "Arr":
     f2.bucket_order = order
     f2.bucket_sorted_over = "all"
     return f2
+
+
+class PSet(Val):
+    """A set of integers given by a membership predicate over the element variable `var` (an index variable name):
+    {e : pred[var := e]} — what `{j for j in range(n) if c(j)}`, set(np.flatnonzero(mask)), set(range(a, b)) and s.add(x)
+    build."""
+    VAR = "$e"
+
+    def __init__(self, pred: Expr):
+        self.pred = pred
+
+    def __repr__(self):
+        return f"PSet({sym.show(self.pred)[:120]})"
